@@ -351,28 +351,6 @@ theorem augmentPhase_eq (reg : Registry) (order : List Nat) (fuel : Nat) (s : PS
 
 /-! ### the tie to `processAll` -/
 
-/-- `Process` either stops early with errors (linking, identities, typedefs, conversion), or it
-runs the augment phase on some error-free forest with some pending table and module order, and
-returns the errors swept after that phase (plus those of the deviations). -/
-theorem processAll_phase (reg : Registry) (opts : Opts) (plug : Plug) :
-    (∃ errs, errs ≠ [] ∧ (processAll reg opts plug).errors = canonErrs errs) ∨
-    ∃ (s : PState) (order : List Nat) (derrs : List Err), allErrs s.forest = [] ∧
-      (processAll reg opts plug).errors =
-        canonErrs (allErrs (augmentPhase reg order (s.pending.foldl (fun n p => n + p.2.length) 0 + 2) s).forest ++ derrs) := by
-  unfold processAll
-  simp only
-  split
-  · rename_i h1
-    left
-    exact ⟨_, by simpa using h1, rfl⟩
-  · split
-    · rename_i h1 h2
-      left
-      exact ⟨_, by simpa using h2, rfl⟩
-    · rename_i h1 h2
-      right
-      exact ⟨⟨_, _⟩, _, _, by simpa [allErrs] using h2, rfl⟩
-
 theorem insertBy_ne_nil {α} (lt : α → α → Bool) (x : α) (l : List α) : insertBy lt x l ≠ [] := by
   cases l with
   | nil => simp [insertBy]
@@ -413,10 +391,77 @@ structure PhaseInput (reg : Registry) (s : PState) (order : List Nat) : Prop whe
   /-- the tree of every (sub)module with augments exists -/
   trees : ∀ id, s.pendingOf id ≠ [] → (s.forest.tree? id).isSome = true
 
-/-- "…or reported" for `processAll`. -/
-theorem processAll_reported (reg : Registry) (opts : Opts) (plug : Plug) :
-    (∃ errs, errs ≠ [] ∧ (processAll reg opts plug).errors = canonErrs errs) ∨
-    ∃ (s : PState) (order : List Nat), allErrs s.forest = [] ∧
+/-! ### pinning the state the augment phase starts from -/
+
+/-- The state and module order with which `processAll` enters the augment phase (`none`: it
+stops before, with errors).  This is the text of `Model.processAll` up to the call of
+`augmentPhase`; `processAll_phaseStart` checks that it is. -/
+def phaseStart (reg : Registry) (opts : Opts) (plug : Plug) : Option (PState × List Nat) :=
+  let (linked, lerrs) := linkAll reg
+  let errs := lerrs ++ plug.identityErrs reg ++ plug.typedefErrs reg
+  if !errs.isEmpty then none else
+  let env : Env := { reg := reg, opts := opts, tres := plug.tres, linked := linked }
+  let fuel := entryFuel reg
+  let mods := reg.distinctModules
+  let subs := reg.distinctSubs
+  let convOrder : List Mod :=
+    let keys (km : KeyMap) := (sortBy (fun (a b : String × Nat) => a.1 < b.1) km).filterMap fun kv => reg.byId kv.2
+    keys reg.modules ++ keys reg.subModules
+  let st : TState := convOrder.foldl (fun st m => (toEntry env fuel m [] m.stmt [] st).2) {}
+  let forest : Forest := { trees := st.cache }
+  let errs := (forest.trees.map fun (_, e) => e.allErrors).flatten
+  if !errs.isEmpty then none else
+  let pending := (mods ++ subs).map fun m => (m.seq, ((st.augs.find? (·.1 == m.seq)).map (·.2)).getD [])
+  let s : PState := { forest := forest, pending := pending }
+  let keyed : List Mod := (reg.modules ++ reg.subModules).filterMap fun kv => reg.byId kv.2
+  let order := sortBy (fun (a b : Mod) =>
+      if a.fullName != b.fullName then a.fullName < b.fullName else !a.isSub && b.isSub) keyed
+  some (s, order.map (·.seq))
+
+/-- `processAll` stops early with errors, or enters the augment phase exactly at `phaseStart` and
+returns the errors swept after it (plus those of the deviations). -/
+theorem processAll_phaseStart (reg : Registry) (opts : Opts) (plug : Plug) :
+    (phaseStart reg opts plug = none → ∃ errs, errs ≠ [] ∧ (processAll reg opts plug).errors = canonErrs errs) ∧
+    (∀ s order, phaseStart reg opts plug = some (s, order) → allErrs s.forest = [] ∧
+      ∃ derrs, (processAll reg opts plug).errors =
+        canonErrs (allErrs (augmentPhase reg order (s.pending.foldl (fun n p => n + p.2.length) 0 + 2) s).forest ++ derrs)) := by
+  constructor
+  · intro h
+    unfold phaseStart at h
+    unfold processAll
+    simp only at h ⊢
+    split at h
+    · rename_i h1
+      simp only [h1, if_true]
+      exact ⟨_, by simpa using h1, rfl⟩
+    · rename_i h1
+      simp only [h1, Bool.false_eq_true, if_false]
+      split at h
+      · rename_i h2
+        simp only [h2, if_true]
+        exact ⟨_, by simpa using h2, rfl⟩
+      · cases h
+  · intro s order h
+    unfold phaseStart at h
+    unfold processAll
+    simp only at h ⊢
+    split at h
+    · cases h
+    · rename_i h1
+      simp only [h1, Bool.false_eq_true, if_false]
+      split at h
+      · cases h
+      · rename_i h2
+        simp only [h2, Bool.false_eq_true, if_false]
+        simp only [Option.some.injEq, Prod.mk.injEq] at h
+        obtain ⟨hs, ho⟩ := h
+        subst hs ho
+        exact ⟨by simpa [allErrs] using h2, _, rfl⟩
+
+/-- "…or reported" for `processAll`, at the state it really starts the augment phase from. -/
+theorem processAll_reported_pinned (reg : Registry) (opts : Opts) (plug : Plug) :
+    (phaseStart reg opts plug = none → ∃ errs, errs ≠ [] ∧ (processAll reg opts plug).errors = canonErrs errs) ∧
+    (∀ s order, phaseStart reg opts plug = some (s, order) → allErrs s.forest = [] ∧
       (PhaseInput reg s order →
         let fuel := s.pending.foldl (fun n p => n + p.2.length) 0 + 2
         let ph := phaseR (Res.ofReg reg) order fuel s
@@ -425,11 +470,12 @@ theorem processAll_reported (reg : Registry) (opts : Opts) (plug : Plug) :
         (∀ ev ∈ ph.2.1,
           (¬ (absEv (Res.ofReg reg) s.forest ev).roots.Nodup ∨
             (absEv (Res.ofReg reg) s.forest ev).Collides (viewOf ev.before)) →
-          (processAll reg opts plug).errors ≠ [])) := by
-  rcases processAll_phase reg opts plug with h | ⟨s, order, derrs, h0, herr⟩
-  · exact Or.inl h
-  · right
-    refine ⟨s, order, h0, ?_⟩
+          (processAll reg opts plug).errors ≠ []))) := by
+  obtain ⟨hps1, hps2⟩ := processAll_phaseStart reg opts plug
+  refine ⟨hps1, ?_⟩
+  · intro s order hstart
+    obtain ⟨h0, derrs, herr⟩ := hps2 s order hstart
+    refine ⟨h0, ?_⟩
     intro hin
     simp only
     have hfuel := fuel_sufficient s hin.keys
